@@ -211,6 +211,7 @@ class SimSocketModule:
     IPPROTO_TCP = _realsocket.IPPROTO_TCP
     TCP_NODELAY = _realsocket.TCP_NODELAY
     SOL_SOCKET = _realsocket.SOL_SOCKET
+    SHUT_RD, SHUT_WR, SHUT_RDWR = _realsocket.SHUT_RD, _realsocket.SHUT_WR, _realsocket.SHUT_RDWR
     SO_KEEPALIVE = _realsocket.SO_KEEPALIVE
     error = OSError
     timeout = _realsocket.timeout
@@ -547,6 +548,16 @@ class SimSocket:
         net.log("recv", self, len(data), tags, self.timeout)
         net.rx.append((net.call, self.sid, data))
         return data
+
+    def shutdown(self, how):
+        """Like socket.shutdown(): fails with ENOTCONN on a socket that is not (or no longer) connected."""
+        net = self.net
+        conn = self.conn
+        if self.state != "connected" or conn is None or conn.reset or (conn.eof and not conn.pipe):
+            net.log("shutdown_fail", self)
+            raise OSError(errno.ENOTCONN, "Transport endpoint is not connected")
+        net.log("shutdown", self, how)
+        conn.eof = True
 
     def close(self):
         net = self.net
